@@ -15,7 +15,5 @@ VERIF_MUT="$PATCH" /verif/run.sh "$ID" "$TIER" > /tmp/mut.$$.out 2>&1; R=$?
 grep -m3 "^  \[" /tmp/mut.$$.out | cut -c1-300
 grep -c "^VIOLATION" /tmp/mut.$$.out | sed 's/^/violation lines: /'
 rm -f /tmp/mut.$$.out
-# rebuild without the mutation so that later runs use the real tree
-/verif/run.sh build >/dev/null 2>&1
 if [ $R -eq 1 ]; then echo "RESULT tests=pass check=DETECTED"; exit 0; fi
 echo "RESULT tests=pass check=MISSED (exit $R)"; exit 1
